@@ -86,6 +86,8 @@ structure Session where
   isLocal : Bool
   cap : Nat := 64                    -- capacity of the router→client queue
   stalled : Bool := false            -- the client has stopped reading
+  buffered : Bool := false           -- attached through a socket transport: what the client sends while the
+                                     -- handler is busy waits in the transport (a linked peer's channel is unbuffered)
   deriving Inhabited
 
 def Session.hasRole (s : Session) (role : String) : Bool :=
